@@ -296,7 +296,7 @@ static int parse_md(Toks* k, sbdf_metadata_head** out)
 	sbdf_metadata_head* h = 0;
 	err = sbdf_md_create(&h);
 	*out = h;
-	if (err) return err;
+	if (err) first = err;   /* the tokens are consumed all the same */
 	n = (int)nxl(k);
 	for (i = 0; i < n; ++i)
 	{
@@ -761,6 +761,13 @@ static void sc_va(SB* s, Toks* k)
 	dump_va(s, va);
 	f_reset(g_f);
 	st = sbdf_va_write(va, g_f);
+	if (st)
+	{
+		sb_printf(s, " wr=%d", st);
+		sbdf_va_destroy(va);
+		sb_printf(s, " live=%ld", vf_live - live0);
+		return;
+	}
 	b = f_slurp(g_f, &n);
 	/* trailing garbage: readers must stop exactly where the writer stopped */
 	fseek(g_f, 0, SEEK_END);
@@ -811,7 +818,7 @@ static void sc_md(SB* s, Toks* k)
 	while (has(k))
 	{
 		const char* op = nx(k);
-		if (!strcmp(op, "new")) { int a = (int)nxl(k); sbdf_md_destroy(r[a]); r[a] = 0; sb_printf(s, "%d;", sbdf_md_create(&r[a])); }
+		if (!strcmp(op, "new")) { int a = (int)nxl(k); sbdf_md_destroy(r[a]); r[a] = 0; sb_printf(s, "%d~", sbdf_md_create(&r[a])); }
 		else if (!strcmp(op, "add"))
 		{
 			int a = (int)nxl(k), hasd, e1, e2 = 0, st;
@@ -826,7 +833,7 @@ static void sc_md(SB* s, Toks* k)
 			sbdf_obj_destroy(v); sbdf_obj_destroy(d);
 			memset(name, 'Z', strlen(name));
 			free(name);
-			sb_printf(s, "%d;", st);
+			sb_printf(s, "%d~", st);
 		}
 		else if (!strcmp(op, "addstr"))
 		{
@@ -836,7 +843,7 @@ static void sc_md(SB* s, Toks* k)
 			char* d = 0;
 			hasd = (int)nxl(k);
 			if (hasd) d = nxname(k);
-			sb_printf(s, "%d;", sbdf_md_add_str(name, v, d, r[a]));
+			sb_printf(s, "%d~", sbdf_md_add_str(name, v, d, r[a]));
 			free(name); free(v); free(d);
 		}
 		else if (!strcmp(op, "addint"))
@@ -844,10 +851,10 @@ static void sc_md(SB* s, Toks* k)
 			int a = (int)nxl(k);
 			char* name = nxname(k);
 			int v = (int)nxl(k), d = (int)nxl(k);
-			sb_printf(s, "%d;", sbdf_md_add_int(name, v, d, r[a]));
+			sb_printf(s, "%d~", sbdf_md_add_int(name, v, d, r[a]));
 			free(name);
 		}
-		else if (!strcmp(op, "rm")) { int a = (int)nxl(k); char* name = nxname(k); sb_printf(s, "%d;", sbdf_md_remove(name, r[a])); free(name); }
+		else if (!strcmp(op, "rm")) { int a = (int)nxl(k); char* name = nxname(k); sb_printf(s, "%d~", sbdf_md_remove(name, r[a])); free(name); }
 		else if (!strcmp(op, "get") || !strcmp(op, "getd"))
 		{
 			int a = (int)nxl(k), st;
@@ -864,15 +871,15 @@ static void sc_md(SB* s, Toks* k)
 				sbdf_obj_destroy(o);
 			}
 			else if (o != (sbdf_object*)(void*)1 && o != 0) sb_puts(s, "!OUTSET");
-			sb_puts(s, ";");
+			sb_puts(s, "~");
 			free(name);
 		}
-		else if (!strcmp(op, "ex")) { int a = (int)nxl(k); char* name = nxname(k); sb_printf(s, "%d;", sbdf_md_exists(name, r[a])); free(name); }
-		else if (!strcmp(op, "cnt")) { int a = (int)nxl(k); sb_printf(s, "%d;", sbdf_md_cnt(r[a])); }
-		else if (!strcmp(op, "copy")) { int a = (int)nxl(k), b = (int)nxl(k); sb_printf(s, "%d;", sbdf_md_copy(r[a], r[b])); }
-		else if (!strcmp(op, "freeze")) { int a = (int)nxl(k); sb_printf(s, "%d;", sbdf_md_set_immutable(r[a])); }
-		else if (!strcmp(op, "dump")) { int a = (int)nxl(k); dump_md(s, r[a]); sb_puts(s, ";"); }
-		else if (!strcmp(op, "setcm")) { int a = (int)nxl(k); char* name = nxname(k); sbdf_valuetype vt; vt.id = (int)nxl(k); sb_printf(s, "%d;", sbdf_cm_set_values(name, vt, r[a])); free(name); }
+		else if (!strcmp(op, "ex")) { int a = (int)nxl(k); char* name = nxname(k); sb_printf(s, "%d~", sbdf_md_exists(name, r[a])); free(name); }
+		else if (!strcmp(op, "cnt")) { int a = (int)nxl(k); sb_printf(s, "%d~", sbdf_md_cnt(r[a])); }
+		else if (!strcmp(op, "copy")) { int a = (int)nxl(k), b = (int)nxl(k); sb_printf(s, "%d~", sbdf_md_copy(r[a], r[b])); }
+		else if (!strcmp(op, "freeze")) { int a = (int)nxl(k); sb_printf(s, "%d~", sbdf_md_set_immutable(r[a])); }
+		else if (!strcmp(op, "dump")) { int a = (int)nxl(k); dump_md(s, r[a]); sb_puts(s, "~"); }
+		else if (!strcmp(op, "setcm")) { int a = (int)nxl(k); char* name = nxname(k); sbdf_valuetype vt; vt.id = (int)nxl(k); sb_printf(s, "%d~", sbdf_cm_set_values(name, vt, r[a])); free(name); }
 		else if (!strcmp(op, "getcm"))
 		{
 			int a = (int)nxl(k), st;
@@ -885,7 +892,7 @@ static void sc_md(SB* s, Toks* k)
 			st = sbdf_cm_get_type(r[a], &vt);
 			sb_printf(s, "t%d", st);
 			if (st == SBDF_OK) sb_printf(s, ":%d", vt.id);
-			sb_puts(s, ";");
+			sb_puts(s, "~");
 		}
 		else if (!strcmp(op, "tm"))
 		{
@@ -908,12 +915,13 @@ static void sc_md(SB* s, Toks* k)
 				sb_printf(s, ":%d", sbdf_md_remove("x", tm->table_metadata));
 				if (ntm < 8) tms[ntm++] = tm; else sbdf_tm_destroy(tm);
 			}
-			sb_puts(s, ";");
+			sb_puts(s, "~");
 		}
 		else { fprintf(stderr, "harness: bad md op %s\n", op); exit(4); }
 	}
+	/* table metadata holds copies: the sources are released first, then the copies are dumped */
 	for (i = 0; i < 8; ++i) sbdf_md_destroy(r[i]);
-	for (i = 0; i < ntm; ++i) sbdf_tm_destroy(tms[i]);
+	for (i = 0; i < ntm; ++i) { sb_puts(s, "tms:"); dump_tm(s, tms[i], 0); sb_puts(s, "~"); sbdf_tm_destroy(tms[i]); }
 	sb_printf(s, "live=%ld", vf_live - live0);
 }
 
